@@ -76,6 +76,13 @@ pub enum Dsd {
     AllowSucceed,
 }
 
+/// Name identity as the TreeSink documentation uses it ("an attribute with that name"): namespace,
+/// prefix and local name, compared field by field (not through QualName's own PartialEq, which
+/// belongs to the code under test).
+pub fn same_qname(a: &QualName, b: &QualName) -> bool {
+    a.ns == b.ns && a.local == b.local && a.prefix == b.prefix
+}
+
 pub struct ModelDom {
     /// (host, template) pairs for which attach_declarative_shadow answered true
     pub shadow_hosts: RefCell<Vec<(Id, Id)>>,
@@ -675,7 +682,7 @@ impl TreeSink for ModelDom {
         match &mut nodes[*target].kind {
             MKind::Element { attrs: existing, .. } => {
                 for a in attrs {
-                    if !existing.iter().any(|e| e.name == a.name) {
+                    if !existing.iter().any(|e| same_qname(&e.name, &a.name)) {
                         existing.push(a);
                     }
                 }
